@@ -847,6 +847,36 @@ fn comparison_fn(files: &[File], reg: &mut Registry, out: &mut String, spec: &Cm
     }
     let mut fd = Finder { needles: spec.needles, found: None };
     fd.visit_block(block);
+    if fd.found.is_none() {
+        // the comparison may have been moved into a helper method of the same type that the
+        // function calls on `self` (an "extract method" rewrite): follow such calls, breadth first
+        struct Calls(Vec<String>);
+        impl<'ast> Visit<'ast> for Calls {
+            fn visit_expr_method_call(&mut self, m: &'ast ExprMethodCall) {
+                if squash(&m.receiver) == "self" {
+                    self.0.push(m.method.to_string());
+                }
+                syn::visit::visit_expr_method_call(self, m);
+            }
+            fn visit_item_fn(&mut self, _: &'ast ItemFn) {}
+        }
+        let mut queue = Calls(vec![]);
+        queue.visit_block(block);
+        let mut seen: Vec<String> = vec![spec.fn_name.to_string()];
+        let mut k = 0;
+        while k < queue.0.len() && fd.found.is_none() && seen.len() < 32 {
+            let name = queue.0[k].clone();
+            k += 1;
+            if seen.contains(&name) {
+                continue;
+            }
+            seen.push(name.clone());
+            if let Some((_, b, _)) = find_method(files, spec.ty_name, None, &name) {
+                fd.visit_block(b);
+                queue.visit_block(b);
+            }
+        }
+    }
     let mut cmp = fd.found.ok_or(format!("{}: no comparison mentioning {:?}", what, spec.needles))?;
     let source = quote::quote!(#cmp).to_string();
     // operands → parameters, in order of first appearance
